@@ -275,6 +275,7 @@ inductive PRdata where
   | hinfo (cpu os : PString)
   | aaaa (groups : List Nat)                                   -- IN AAAA: eight 16-bit groups, written in full
   | chA (n : PName) (addr : Nat)                               -- CH A: network name and octal address
+  | aaaaC (hd tl : List Nat)                                   -- IN AAAA with `::` for the zero groups between `hd` and `tl`
   deriving Repr, Inhabited
 
 def u16Wire (n : Nat) : List UInt8 := [UInt8.ofNat (n / 256 % 256), UInt8.ofNat (n % 256)]
@@ -296,6 +297,7 @@ def kindOK (cls ty : Nat) : PRdata → Bool
   | .hinfo .. => ty == 13
   | .aaaa .. => cls == 1 && ty == 28
   | .chA .. => cls == 3 && ty == 1
+  | .aaaaC .. => cls == 1 && ty == 28
 
 /-- the second and later strings of TXT, each after its gap -/
 def txtRest (G : Nat → PGap) : Nat → List PString → List UInt8
@@ -320,6 +322,7 @@ def rdataText (G : Nat → PGap) : PRdata → List UInt8
   | .hinfo c o => stringText c ++ (gapText (G 0) ++ stringText o)
   | .aaaa gs => groupsText gs
   | .chA n a => nameText n ++ (gapText (G 0) ++ octalText a)
+  | .aaaaC hd tl => groupsText hd ++ (58 :: 58 :: groupsText tl)
 
 /-- number of gaps inside the RDATA -/
 def rdataGaps : PRdata → Nat
@@ -334,6 +337,7 @@ def rdataGaps : PRdata → Nat
   | .hinfo .. => 1
   | .aaaa .. => 0
   | .chA .. => 1
+  | .aaaaC .. => 0
 
 def txtLines (G : Nat → PGap) : Nat → List PString → Nat
   | _, [] => 0
@@ -354,6 +358,7 @@ def rdataLines (G : Nat → PGap) : PRdata → Nat
   | .hinfo c o => stringLines c + gapLines (G 0) + stringLines o
   | .aaaa .. => 0
   | .chA n _ => nameLines n + gapLines (G 0)
+  | .aaaaC .. => 0
 
 /-- the RDATA denoted (RFC 1035 §3.3, RFC 2782 wire formats); `none` if a name cannot be completed -/
 def rdataWire (origin : Option (List UInt8)) : PRdata → Option (List UInt8)
@@ -374,6 +379,7 @@ def rdataWire (origin : Option (List UInt8)) : PRdata → Option (List UInt8)
   | .hinfo c o => some (stringWire c ++ stringWire o)
   | .aaaa gs => some (gs.flatMap u16Wire)
   | .chA n a => (nameWire origin n).map fun w => w ++ u16Wire a
+  | .aaaaC hd tl => some ((hd ++ List.replicate (8 - hd.length - tl.length) 0 ++ tl).flatMap u16Wire)
 
 /-! ### records and files — the presentation subset of `C23_records_partial`
 
@@ -385,12 +391,11 @@ def rdataWire (origin : Option (List UInt8)) : PRdata → Option (List UInt8)
   before).  TTL and class written (decimal; mnemonic in any case or `CLASSnnn`; in either order)
   or omitted.  Type: mnemonic in any case or `TYPEnnn`.  RDATA: the RFC 3597 form `\# len hex`
   for any class and type, or the typed syntax of A, NS/MD/MF/CNAME/MB/MG/MR/PTR, MX, SOA, MINFO,
-  SRV, TXT, HINFO, AAAA, Chaosnet A (names relative / absolute / `@`; character-strings quoted or unquoted with
+  SRV, TXT, HINFO, AAAA (in full or with `::`), Chaosnet A (names relative / absolute / `@`; character-strings quoted or unquoted with
   escapes).  Directives: `$ORIGIN <absolute name>`, `$TTL <decimal>`,
   `$INCLUDE <path> [<origin>]`.  Blank and comment-only
   lines.  The last line may end with the file instead
-  of a line end.  Not in this subset (see C23.lean): `::`-compressed or IPv4-suffixed AAAA and the typed
-  syntax of WKS. -/
+  of a line end.  Not in this subset (see C23.lean): IPv4-suffixed AAAA and the typed syntax of WKS. -/
 
 inductive POwner where
   | same
